@@ -253,15 +253,27 @@ def build_model(c):
 def judge_route(c, rec):
     m, names, occ, ob, ub, spec = build_model(c)
     rng = np.random.default_rng(c["seed"] + 1)
-    idx = pd.date_range(pd.Timestamp("2020-01-01", tz="UTC") + pd.Timedelta(hours=c["start_h"]), periods=c["n"],
-                        freq="h").tz_convert(c["tz"])
-    Tv = np.round(rng.uniform(-10, 110, len(idx)), 2)
+    idx0 = pd.date_range(pd.Timestamp("2020-01-01", tz="UTC") + pd.Timedelta(hours=c["start_h"]), periods=c["n"], freq="h")
+    Tv = np.round(rng.uniform(-10, 110, len(idx0)), 2)
     for k in c["nan_T"]:
         if k < len(Tv):
             Tv[k] = np.nan
+    typ = c["segment_type"]
+    # the same model predicts the same instants on the case's clock and then on two other clocks: each hour is routed and labelled
+    # by the calendar of the index it was asked for
+    others = [z for z in ("UTC", "Asia/Kolkata", "America/Los_Angeles") if z != c["tz"]][:2]
+    for pos, tz in enumerate([c["tz"]] + others):
+        if _route_on(m, occ, ob, ub, spec, typ, idx0.tz_convert(tz), Tv, c, rec, "/same-instants-on-another-clock" if pos else ""):
+            break
+    month = idx0.tz_convert(c["tz"]).month.values
+    nm = len(set(month))
+    rec.case(c, nm >= 2, ["sub=route", "type=" + typ, "months=%d" % min(nm, 4), "missing_seg=%d" % bool(c["missing_segments"])])
+
+
+def _route_on(m, occ, ob, ub, spec, typ, idx, Tv, c, rec, tag):
+    """one prediction on one clock against the own-month reference; True when a violation was recorded"""
     T = pd.Series(Tv, index=idx)
     out = m.predict(idx, T).result
-    typ = c["segment_type"]
     # reference: own month's segment only
     loc = idx.tz_localize(None)
     days = ((loc.normalize() - pd.Timestamp("2019-12-30")) // pd.Timedelta(days=1)).values
@@ -291,9 +303,11 @@ def judge_route(c, rec):
             v = a + sum(p["bin_%d_unoccupied" % b] * feats[b][0] for b in range(len(feats)))
         exp[i] = v
     key = "route/" + typ
+    bad = False
     # rows may be absent only when no segment model produced anything for them (they then count as NaN)
     if out.index.has_duplicates or not out.index.isin(idx).all() or not out.index.is_monotonic_increasing:
-        rec.violation(key + "/index", c, "prediction index is not a sub-sequence of the prediction index requested")
+        rec.violation(key + "/index" + tag, c, "prediction index is not a sub-sequence of the prediction index requested (zone %s)" % idx.tz)
+        bad = True
     else:
         if "predicted_usage" in out.columns:
             got = out["predicted_usage"].reindex(idx).values.astype(float)
@@ -301,16 +315,17 @@ def judge_route(c, rec):
             got = np.full(len(idx), np.nan)
         if not np.array_equal(np.isnan(got), np.isnan(exp)):
             j = int(np.nonzero(np.isnan(got) != np.isnan(exp))[0][0])
-            rec.violation(key + "/nan-pattern", c, "at %s got %r expected %r" % (idx[j], got[j], exp[j]))
+            rec.violation(key + "/nan-pattern" + tag, c, "at %s got %r expected %r" % (idx[j], got[j], exp[j]))
+            bad = True
         else:
             okm = ~np.isnan(exp)
             d = np.abs(got[okm] - exp[okm])
             if (d > 1e-8 * (1 + np.abs(exp[okm]))).any():
                 j = int(np.argmax(d))
-                rec.violation(key + "/value", c, "at %s got %r expected %r (month %d)" % (
+                rec.violation(key + "/value" + tag, c, "at %s got %r expected %r (month %d)" % (
                     idx[okm][j], got[okm][j], exp[okm][j], month[okm][j]))
-    nm = len(set(month))
-    rec.case(c, nm >= 2, ["sub=route", "type=" + typ, "months=%d" % min(nm, 4), "missing_seg=%d" % bool(c["missing_segments"])])
+                bad = True
+    return bad
 
 
 # ------------------------------------------------------------------ prediction feature processor: occupied xor unoccupied
@@ -375,7 +390,7 @@ def judge_proc(c, rec):
 @st.composite
 def fitw_cases(draw):
     return {"kind": "fitw", "seed": draw(st.integers(0, 2 ** 31 - 1)), "tz": draw(st.sampled_from(ZONES[:5])),
-            "start_day": draw(st.integers(0, 700)), "days": draw(st.integers(70, 150))}
+            "start_day": draw(st.integers(0, 700)), "days": draw(st.one_of(st.integers(70, 150), st.integers(70, 150), st.integers(372, 420)))}
 
 
 def judge_wrapper(c, rec):
